@@ -237,6 +237,47 @@ def run (lines : Array String) : IO Report := do
         let f := Proto.flush rs.st
         if f.led ≠ led then diff rep ln "model" s!"case={cid} final ledger: model={fmtLed f.led} impl={fmtLed led}"
       ok rep
+    | "wreq" :: opts =>
+        -- Request.Write against Proto.writeReq
+        let geti := fun n => ((kvOpt opts n).bind String.toInt?).getD 0
+        let hexOpt := fun n => unhex ((kvOpt opts n).getD "-")
+        let keys := match (kvOpt opts "keys").getD "" with
+          | "" => []
+          | ks => (ks.splitOn ",").map unhex
+        let r : Proto.Req := { cmd := hexOpt "cmd", keys := keys, flag := geti "flag", exptime := geti "exptime", cas := geti "cas",
+                               body := hexOpt "body", noreply := (kvOpt opts "noreply") == some "1" }
+        let m := Proto.writeReq r
+        if tohex m ≠ obs && !(m.isEmpty && obs == "-") then
+          diff rep ln "model" s!"case={rs.cid} writeReq: model={(tohex m).take 120} impl={obs.take 120}"
+        ok rep
+    | ["rreq", hx] =>
+        let inp := unhex hx
+        let ro := Proto.readReq rs.cfg {} inp
+        let m : String := match ro.res with
+          | .ok =>
+            let ks := ",".intercalate (ro.req.keys.map tohex)
+            let isItem := Proto.isStoreCmd ro.req.cmd || ro.req.cmd == Proto.ascii "incr" || ro.req.cmd == Proto.ascii "decr"
+            let body := if isItem then tohex ro.req.body else "-"
+            s!"OK n={ro.n} cmd={tohex ro.req.cmd} keys={ks} flag={ro.req.flag} exptime={ro.req.exptime} cas={ro.req.cas} body={body} noreply={if ro.req.noreply then 1 else 0}"
+          | .net => s!"ERR network_error n={ro.n}"
+          | .err .invalidCmd => s!"ERR invalid_cmd n={ro.n}"
+          | .err .valueTooLarge => s!"ERR value_too_large n={ro.n}"
+          | .err .badChunk => s!"ERR bad_data_chunk n={ro.n}"
+          | .err .nonMemcache => s!"ERR non_memcache_command n={ro.n}"
+        if m ≠ obs then diff rep ln "model" s!"case={rs.cid} readReq: model={m.take 160} impl={obs.take 160}"
+        -- oracle (round trip): the previous line was the request these bytes were written from
+        ok rep
+    | ["rresp", hx] =>
+        let inp := unhex hx
+        let m : String := match Proto.readResp rs.cfg 100000 inp [] with
+          | none => "ERR"
+          | some (r, rest) =>
+            let items := (r.items.toArray.qsort (fun a b => tohex a.key < tohex b.key)).toList
+            let is := if items.isEmpty then "-" else ",".intercalate (items.map fun it => s!"{tohex it.key}:{it.flag}:{it.cas}:{tohex it.body}")
+            s!"OK rest={rest.length} status={tohex r.status} msg={tohex r.msg} items={is}"
+        if m ≠ obs && obs ≠ "PANIC" then diff rep ln "model" s!"case={rs.cid} readResp: model={m.take 160} impl={obs.take 160}"
+        if obs == "PANIC" then diff rep ln "oracle" s!"case={rs.cid} key=C11/panic the reply parser panicked on {hx.take 80}"
+        ok rep
     | ["end"] => pure ()
     | _ => pure ()
   rep.get
